@@ -221,6 +221,64 @@ func returnsOf(fn *ssa.Function) []*ssa.Return {
 	return out
 }
 
+// isSpillAlloc reports whether a is a result-spill variable: go/ssa stores the
+// results of functions that contain defers into such allocs right before
+// rundefers and reloads them for the return instruction.
+func isSpillAlloc(a *ssa.Alloc) bool {
+	if a.Referrers() == nil {
+		return false
+	}
+	loads := 0
+	for _, ref := range *a.Referrers() {
+		switch r := ref.(type) {
+		case *ssa.Store:
+			if r.Addr != a {
+				return false
+			}
+		case *ssa.UnOp:
+			if r.Op != token.MUL {
+				return false
+			}
+			for _, rr := range *r.Referrers() {
+				if _, ok := rr.(*ssa.Return); !ok {
+					if _, dbg := rr.(*ssa.DebugRef); !dbg {
+						return false
+					}
+				}
+			}
+			loads++
+		case *ssa.DebugRef:
+		default:
+			return false
+		}
+	}
+	return loads > 0
+}
+
+// retOperands returns the values a Return hands out, looking through the
+// result-spill pattern of functions with defers (store; rundefers; load).
+func retOperands(ret *ssa.Return) []ssa.Value {
+	out := append([]ssa.Value{}, ret.Results...)
+	instrs := ret.Block().Instrs
+	for i, v := range out {
+		u, ok := v.(*ssa.UnOp)
+		if !ok || u.Op != token.MUL {
+			continue
+		}
+		a, ok := u.X.(*ssa.Alloc)
+		if !ok || !isSpillAlloc(a) {
+			continue
+		}
+		for j := len(instrs) - 1; j >= 0; j-- {
+			if st, ok := instrs[j].(*ssa.Store); ok && st.Addr == a {
+				out[i] = st.Val
+				break
+			}
+		}
+	}
+	return out
+}
+
 // errorResultIndex returns the index of the (last) result of type error, or -1.
 func errorResultIndex(sig *types.Signature) int {
 	res := sig.Results()
